@@ -35,7 +35,11 @@ func runC15(rc *RunCtx) *simkit.Violation {
 	// shared content pool: heavy overlap between everything that is stored
 	var pool [][]byte
 	for i := 0; i < 5; i++ {
-		pool = append(pool, append([]byte(fmt.Sprintf("pool %d ", i)), t.Bytes(t.Pick(0, 30, 64, 200))...))
+		sz := t.Pick(0, 30, 64, 200)
+		if i == 4 {
+			sz = t.Pick(200, 640, 900) // with 64-byte leaves: more leaves than the writer flushes concurrently
+		}
+		pool = append(pool, append([]byte(fmt.Sprintf("pool %d ", i)), t.Bytes(sz)...))
 	}
 	drawT := func(salt string) Tree {
 		tr := Tree{}
